@@ -1052,7 +1052,7 @@ static int cfg_setopt_value(cfg_t *cfg, cfg_opt_t *opt, const char *value, cfg_v
 				return CFG_FAIL;
 			}
 
-			if (!is_set(CFGF_DEFINIT, opt->flags) && cfg_init_defaults(sec) != CFG_SUCCESS) {
+			if (cfg_init_defaults(sec) != CFG_SUCCESS) {
 				cfg_free_section(sec);
 				return CFG_FAIL;
 			}
